@@ -420,3 +420,27 @@ package tacquito
 //@   loop 2 invariant[case2] forall j int :: {f.Args[j]} 0 <= j && j < len(f.Args) ==> 9 + len(f.Args) + len(f.User) + len(f.Port) + len(f.RemAddr) + sumLen(f.Args, j) + len(f.Args[j]) <= len(data)
 //@   loop 2 invariant[case2] sumLen(a.Args, rangeindex + 1) == sumLen(f.Args, rangeindex + 1)
 //@   loop 2 invariant[case2] forall j int, i int :: 0 <= j && j <= rangeindex && 0 <= i && i < len(f.Args[j]) ==> a.Args[j][i] == f.Args[j][i]
+
+// ---------------------------------------------------------------------------
+// crypt.go
+// ---------------------------------------------------------------------------
+
+//@ func crypt(secret []byte, p *Packet) (err error)
+//@   requires p != nil && p.Header != nil
+//@   requires len(p.Body) <= p.Header.Length
+//@   modifies p.Body[..], ghost.md5acc
+//@   ensures[C03] unchanged(*p.Header) && len(p.Body) == old(len(p.Body))
+//@   ensures[C03] old(p.Header.Flags) mod 2 == 1 ==> err == nil && unchanged(p.Body[..])
+//@   ensures[C03] (old(p.Header.Flags) mod 2 == 0 && valid.Version(p.Header.Version)) ==> err == nil
+//@   ensures[C03] (old(p.Header.Flags) mod 2 == 0 && err == nil) ==>
+//@        (forall i int :: {p.Body[i]} 0 <= i && i < len(p.Body) ==> p.Body[i] == xor8(old(p.Body[i]), padAt(*p.Header, secret, i)))
+//@   ensures[C03] err != nil ==> unchanged(p.Body[..])
+//@   loop 1 invariant len(pad) <= headerLen && 0 <= len(pad)
+//@   loop 1 invariant len(pad) < headerLen ==> len(pad) mod 16 == 0
+//@   loop 1 invariant forall j int :: {pad[j]} 0 <= j && j < len(pad) ==> pad[j] == padAt(*p.Header, secret, j)
+//@   loop 1 invariant len(pad) == 0 ==> len(lastHash) == 0
+//@   loop 1 invariant (0 < len(pad) && len(pad) < headerLen) ==>
+//@        (len(lastHash) == 16 && seqof(lastHash) == padBlock(padBase(*p.Header, secret), len(pad) div 16 - 1))
+//@   loop 2 invariant -1 <= rangeindex && rangeindex < len(p.Body)
+//@   loop 2 invariant forall j int :: {p.Body[j]} 0 <= j && j <= rangeindex ==> p.Body[j] == xor8(old(p.Body[j]), padAt(*p.Header, secret, j))
+//@   loop 2 invariant forall j int :: {p.Body[j]} rangeindex < j && j < len(p.Body) ==> p.Body[j] == old(p.Body[j])
